@@ -27,7 +27,8 @@ func HasPathTo(b1 *ssa.BasicBlock, b2 *ssa.BasicBlock, mem map[*ssa.BasicBlock]m
 			return val
 		}
 	}
-	vis := map[*ssa.BasicBlock]bool{}
+	// Blocks are marked when they are enqueued, so every block enters the queue at most once.
+	vis := map[*ssa.BasicBlock]bool{b1: true}
 	que := []*ssa.BasicBlock{b1}
 	for len(que) > 0 {
 		cur := que[0]
@@ -41,10 +42,10 @@ func HasPathTo(b1 *ssa.BasicBlock, b2 *ssa.BasicBlock, mem map[*ssa.BasicBlock]m
 			mem[b1][b2] = true
 			return true
 		}
-		vis[cur] = true
 		que = que[1:]
 		for _, nb := range cur.Succs {
 			if !vis[nb] {
+				vis[nb] = true
 				que = append(que, nb)
 			}
 		}
